@@ -25,6 +25,9 @@ ROOT = os.path.dirname(os.path.abspath(__file__))
 PY = os.environ.get("QMON_PYTHON", "/venv/bin/python")
 DEPS = os.path.join(ROOT, ".deps")
 WORK = os.path.join(ROOT, ".work")
+if os.environ.get("QMON_REPO"):
+    # runs against another checkout never share scratch space with runs on /repo
+    WORK = os.path.join(ROOT, ".work_alt", os.path.basename(os.environ["QMON_REPO"].rstrip("/")))
 WHEELS = "/opt/veriftools/wheels"
 
 
@@ -43,8 +46,11 @@ def bootstrap():
 
 def child_env(extra=None):
     env = dict(os.environ)
+    # QMON_REPO: (mutation tooling only) import quimb from another checkout,
+    # e.g. a scratch worktree with a seeded change applied, instead of /repo
+    alt = [env["QMON_REPO"]] if env.get("QMON_REPO") else []
     env["PYTHONPATH"] = os.pathsep.join(
-        [ROOT, DEPS] + ([env["PYTHONPATH"]] if env.get("PYTHONPATH") else []))
+        alt + [ROOT, DEPS] + ([env["PYTHONPATH"]] if env.get("PYTHONPATH") else []))
     env["PYTHONHASHSEED"] = "0"
     env.setdefault("OMP_NUM_THREADS", "1")
     env.setdefault("OPENBLAS_NUM_THREADS", "1")
